@@ -270,6 +270,43 @@ def bloch_redfield(rng, tier, rep):
                         rep.count("br-td-args")
                         if np.abs(got_t.full() - want_t).max() > 1e-7 * (1 + np.abs(want_t).max()):
                             viol.append(("br-td-args", f"Bloch-Redfield tensor of a time-dependent coupling evaluated at t={t_} with g={g_} ({how}) differs from the tensor of the coupling operator at that time by {np.abs(got_t.full() - want_t).max():.2e}"))
+                # time-dependent Hamiltonian with an argument: single terms and cross terms, in the lab basis and in the
+                # eigenbasis, every computation method; the term as an operator at t, applied to a state directly
+                # (matmul), with the arguments replaced by themselves, and with new arguments against a fresh term
+                from qutip.core.blochredfield import brcrossterm
+                Hlist = [H, [a + a.dag(), "A*t"]]
+                bq = 0.5 * a.dag() + a.dag() * a
+                vst = qutip.operator_to_vector(qutip.rand_dm(H.shape[0], seed=int(rng.integers(1 << 30))))
+                for fock, meth in itertools.product((True, False), ("sparse", "dense", "matrix")):
+                    for kind in ("brterm", "brcrossterm"):
+                        def mk_term(A_):
+                            Ht_ = qutip.QobjEvo(Hlist, args={"A": A_})
+                            if kind == "brterm":
+                                out_ = qutip.brterm(Ht_, qutip.QobjEvo(a + a.dag()), qutip.coefficient(lambda t, w: 0.2 + 0.1 * np.tanh(w), args={"w": 0}), sec_cutoff=-1, fock_basis=fock, br_computation_method=meth)
+                            else:
+                                out_ = brcrossterm(Ht_, qutip.QobjEvo(a), qutip.QobjEvo(bq), qutip.coefficient(lambda t, w: 0.2 + 0.1 * np.tanh(w), args={"w": 0}), -1, fock, br_computation_method=meth)
+                            return out_[0] if isinstance(out_, tuple) else out_
+                        lab = f"{kind} (time-dependent H, fock_basis={fock}, method={meth})"
+                        try:
+                            R1 = mk_term(0.5)
+                            t_ = 0.4
+                            base_ = R1(t_).full()
+                            rep.evaluations += 1
+                            rep.count("br-term-routes")
+                            mm = R1.matmul(t_, vst).full()
+                            if fock and np.abs(mm - base_ @ vst.full()).max() > 1e-9 * (1 + np.abs(base_).max()):
+                                viol.append((f"br-term-matmul:{kind}", f"{lab}: applying the term to a state (matmul) differs from applying the term evaluated at that time by {np.abs(mm - base_ @ vst.full()).max():.2e}"))
+                            R1.arguments({"A": 0.5})
+                            if np.abs(R1(t_).full() - base_).max() > 1e-9 * (1 + np.abs(base_).max()):
+                                viol.append((f"br-term-same-args:{kind}", f"{lab}: replacing the arguments by themselves changes the term by {np.abs(R1(t_).full() - base_).max():.2e}"))
+                            R1.arguments({"A": 1.25})
+                            fresh_ = mk_term(1.25)(t_).full()
+                            if np.abs(R1(t_).full() - fresh_).max() > 1e-9 * (1 + np.abs(fresh_).max()):
+                                viol.append((f"br-term-new-args:{kind}", f"{lab}: the term with replaced arguments differs from the term built with these arguments by {np.abs(R1(t_).full() - fresh_).max():.2e}"))
+                        except core.CaseTimeout:
+                            raise
+                        except Exception as e:
+                            viol.append((f"br-term-raises:{kind}", f"{lab}: {type(e).__name__}: {e}"[:240]))
         except core.CaseTimeout:
             raise
         except Exception as e:
